@@ -417,3 +417,64 @@ def h4(proj, rep):
         else:
             rep.ok('H4', construct, f'cancellation of identical adjacent gates; all keys {keys_of.get(fq)} are involutions', mod, pops[0])
     return n
+
+
+
+# ------------------------------------------------------------------------------------------------ H7
+RULE_H7 = ('H7: CliffordCircuit.num_qubit is one more than the largest qubit index over ALL index slots of ALL recorded gates (`for y in x[1:]`): looking only at the '
+           'last slot misses a control qubit that is the highest qubit of the history (CX(1,0)), so the tableau is sized too small.')
+
+
+def h7(proj, rep):
+    rep.rule('H7', RULE_H7)
+    f = proj.func(f'{CLS}.num_qubit')
+    m = f.module
+    r = next((s for s in ast.walk(f.node) if isinstance(s, ast.Assign) and 'max(' in ast.unparse(s.value)), None)
+    if r is None:
+        rep.undecided('H7', f.qual, 'max over the recorded indices not found', m, f.node, text='num_qubit')
+        return 0
+    t = ast.unparse(r.value).replace(' ', '')
+    if 'foryinx[1:]' in t and 'forxinself.gate_index_list' in t and t.endswith('+1'):
+        rep.ok('H7', f.qual, 'max over every index slot of every gate, plus one', m, r)
+    elif 'x[-1]' in t or 'x[1]' in t or 'x[2]' in t:
+        rep.violation('H7', f.qual, f'`{t[:70]}` inspects a single index slot per gate: a two-qubit gate whose other qubit is the highest of the history (e.g. CX(1,0)) gives a '
+                      f'register that is too small', m, r)
+    else:
+        rep.undecided('H7', f.qual, f'`{t[:60]}` not recognised', m, r)
+        return 0
+    return 1
+
+
+# ------------------------------------------------------------------------------------------------ H8
+RULE_H8 = ('H8: clifford_array_to_F2 converts between two phase conventions: PauliOperator.F2 stores i^(2 b0 + b1) X^x Z^z, the tableau phase r stands in front of '
+           'i^(x.z) X^x Z^z. For a Hermitian image (b1 = x.z mod 2) this gives r = b0 + ((x.z) mod 4)//2 (mod 2): both phase entries (image of X_k and of Z_k) '
+           'must add the Y-pair correction ((x.z) % 4)//2 of the SAME image to its sign bit b0. Taking b0 alone is wrong for images with two or three Y factors.')
+
+
+def h8(proj, rep):
+    rep.rule('H8', RULE_H8)
+    f = proj.func(f'{MOD}.clifford_array_to_F2')
+    m = f.module
+    n = 0
+    for s in ast.walk(f.node):
+        if not (isinstance(s, ast.Assign) and isinstance(s.targets[0], ast.Subscript) and isinstance(s.targets[0].value, ast.Name) and s.targets[0].value.id == 'cli_r'):
+            continue
+        n += 1
+        t = ast.unparse(s.value).replace(' ', '').replace('(N0+2)', 'N0+2')
+        names = {x.id for x in ast.walk(s.value) if isinstance(x, ast.Name) and x.id.endswith('bit')}
+        if len(names) != 1:
+            rep.undecided('H8', f.qual, f'`{t[:60]}`: image variable not identified', m, s)
+            n -= 1
+            continue
+        b = names.pop()
+        want = f'({b}[0]+np.dot({b}[2:N0+2],{b}[N0+2:])%4//2)%2'
+        if t == want:
+            rep.ok('H8', f.qual, f'r = {b}[0] + ((x.z) % 4)//2 (mod 2) of the same image', m, s)
+        elif t == f'{b}[0]':
+            rep.violation('H8', f.qual, f'`{ast.unparse(s)[:60]}` takes the F2 sign bit as the tableau phase: the two conventions differ by (-1)^(((x.z) % 4)//2), so every generator '
+                          f'image with two or three Y factors (e.g. X1 -> Y1 Y2 under (S x S) CNOT) gets the wrong sign', m, s)
+        else:
+            rep.undecided('H8', f.qual, f'`{t[:70]}` not the recognised conversion', m, s)
+            n -= 1
+    rep.count('H8.phase_conversions', n)
+    return n
